@@ -1,9 +1,9 @@
 package rules
 
 import (
-	"go/types"
 	"go/ast"
 	"go/token"
+	"go/types"
 	"strings"
 
 	"verif/checker/eng"
